@@ -158,11 +158,19 @@ def run(chk):
     for k in range(6 if quick else 60):
         g, t = black_donor_scenario(common.rng("C06", "bd", k))
         jobs.append(("black-donor", k, g, t, {"seed": [chk.seed, k]}))
+    for k in range(12 if quick else 300):
+        r = common.rng("C06", "co", k)
+        g = S.thin_bar_scenario(r) if k % 2 else S.lattice_scenario(r)
+        jobs.append(("coincidence", k, g, 0.1, {"seed": [chk.seed, k], "variant": "lattice"}))
     for n, (kind, k, glyphs, tol, info) in enumerate(jobs):
         fmt = FORMATS[n % 3] if quick else None
         for f in ([fmt] if fmt else FORMATS):
-            shared = compare_pair(chk, glyphs, tol, f, f"{kind} {k}", dict(info, kind=kind),
-                                  variant=CC.VARIANTS[n % len(CC.VARIANTS)] if n % 4 == 0 else None)
+            variant = CC.VARIANTS[n % len(CC.VARIANTS)] if n % 4 == 0 else None
+            if kind == "coincidence":
+                variant = [S.LATTICE_CONFIG, {"upem": 2048, "ascender": 1900, "descender": -500, "width": 0}, {}][k % 3]
+                if fmt and k % 2:
+                    f = "glyf_colr_1"   # the gradient fallbacks only exist in COLRv1
+            shared = compare_pair(chk, glyphs, tol, f, f"{kind} {k}", dict(info, kind=kind), variant=variant)
             chk.case(key=(kind, k, f), nontrivial=bool(shared and shared > 0))
             chk.traces_validated += 1
     chk.sample({"job_kinds": sorted({j[0] for j in jobs}), "formats": FORMATS})
